@@ -456,4 +456,156 @@ theorem step_key (c : Cfg) (hv : c.v = {}) (t : Table) (op : Op) (hu : Uniq t) (
         exact Or.inl ⟨e, (keep_some h).1⟩
 
 
+/-! ## lifetime under a refreshed position vector: chaining `live_step` with a moving limit -/
+
+/-- PV time of the newest PV among `T` and what one operation makes the table accept from `a` -/
+def accTime (c : Cfg) (a : Addr) (t : Table) (op : Op) (T : Nat) : Nat :=
+  (acc1 c a t op).foldl (fun m q => max m q.time) T
+
+/-- chained side condition: every operation happens inside the window and not later than the lifetime after the
+NEWEST position vector of `a` accepted so far (`T` = its time); the timestamps of `a`'s packets lie in the window -/
+def ChainOK (c : Cfg) (a : Addr) (B : Nat) : Table → Nat → List Op → Prop
+  | _, _, [] => True
+  | t, T, op :: r => OpOK a B (T + c.lifetimeMs) op ∧ ChainOK c a B (step c t op) (accTime c a t op T) r
+
+/-- time of the newest PV of `a` accepted along the history, starting from `T` -/
+def latestTime (c : Cfg) (a : Addr) : Table → Nat → List Op → Nat
+  | _, T, [] => T
+  | t, T, op :: r => latestTime c a (step c t op) (accTime c a t op T) r
+
+theorem acc1_cases (c : Cfg) (a : Addr) (t : Table) (op : Op) :
+    acc1 c a t op = [] ∨ ∃ p, acc1 c a t op = [p] := by
+  cases op with
+  | pkt k b p sn now => simp only [acc1]; split <;> simp
+  | ensure b => exact Or.inl rfl
+  | refresh now => exact Or.inl rfl
+  | tick now => exact Or.inl rfl
+
+theorem accTime_ge (c : Cfg) (a : Addr) (t : Table) (op : Op) (T : Nat) : T ≤ accTime c a t op T := by
+  unfold accTime
+  rcases acc1_cases c a t op with h | ⟨p, h⟩ <;> rw [h] <;> simp only [List.foldl]
+  · exact Nat.le_refl _
+  · exact Nat.le_max_left _ _
+
+theorem latestTime_ge (c : Cfg) (a : Addr) : ∀ (ops : List Op) (t : Table) (T : Nat), T ≤ latestTime c a t T ops := by
+  intro ops
+  induction ops with
+  | nil => intro t T; exact Nat.le_refl _
+  | cons op r ih =>
+    intro t T
+    exact Nat.le_trans (accTime_ge c a t op T) (ih _ _)
+
+/-- the chained live-entry theorem: the entry stays, keeps its neighbour flag, and its PV time is the time of the newest
+accepted PV, as long as every operation falls within the lifetime of the newest PV accepted BEFORE it -/
+theorem live_chain (c : Cfg) (hv : c.v = {}) (a : Addr) (B : Nat) :
+    ∀ (ops : List Op) (t : Table) (e : Entry), Uniq t → lookup t a = some e → e.hasPV = true →
+      Win B e.pv.time → ChainOK c a B t e.pv.time ops →
+      ∃ e', lookup (ops.foldl (step c) t) a = some e' ∧ e'.hasPV = true ∧
+        (e.isNeighbour = true → e'.isNeighbour = true) ∧
+        e'.pv.time = latestTime c a t e.pv.time ops ∧ Win B e'.pv.time := by
+  intro ops
+  induction ops with
+  | nil =>
+    intro t e _ hl hh hw _
+    exact ⟨e, hl, hh, id, rfl, hw⟩
+  | cons op r ih =>
+    intro t e hu hl hh hw hch
+    obtain ⟨hop, hrest⟩ := hch
+    obtain ⟨e1, s1, s2, s3, s4, s5, s6, s7⟩ :=
+      live_step c hv a B (e.pv.time + c.lifetimeMs) t e op hu hl hh hw (Nat.le_refl _) hop
+    have ht : e1.pv.time = accTime c a t op e.pv.time := by
+      unfold accTime
+      rcases acc1_cases c a t op with h | ⟨p, h⟩
+      · rw [h] at s7 ⊢
+        rcases s7 with h7 | h7
+        · simp [List.foldl, h7]
+        · cases h7
+      · rw [h] at s6 s7 ⊢
+        have hp := s6 p (by simp)
+        simp only [List.foldl]
+        rcases s7 with h7 | h7
+        · rw [h7] at hp ⊢; omega
+        · simp at h7; rw [h7] at s4 ⊢; omega
+    rw [← ht] at hrest
+    obtain ⟨e2, r1, r2, r3, r4, r5⟩ := ih (step c t op) e1 (uniq_step c t op hu) s1 s2 s5 hrest
+    exact ⟨e2, by simpa [List.foldl] using r1, r2, fun h => r3 (s3 h), by rw [r4, ht]; rfl, r5⟩
+
+/-! ## the duplicate packet list under a well-formed configuration -/
+
+theorem dplPushE_wf (L : Nat) (h : 0 < L) (d : List Nat) (sn : Nat) : dplPushE L d sn = .ok (dplPush L d sn) := by
+  unfold dplPushE dplPush
+  by_cases hl : d.length = L
+  · cases d with
+    | nil => simp at hl; omega
+    | cons x r => simp [hl]
+  · simp [hl]
+
+theorem dplPush_length_le (L : Nat) (h : 0 < L) (d : List Nat) (sn : Nat) (hd : d.length ≤ L) :
+    (dplPush L d sn).length ≤ L := by
+  unfold dplPush
+  by_cases hl : d.length = L
+  · simp [hl]; omega
+  · simp [hl]; omega
+
+/-- every entry's duplicate list holds at most `itsGnDPLLength` sequence numbers -/
+def DplBounded (c : Cfg) (t : Table) : Prop := ∀ b e, lookup t b = some e → e.dpl.length ≤ c.dplLen
+
+theorem updPV_dpl (c : Cfg) (e : Entry) (p : PV) : (updPV c e p).dpl = e.dpl := by
+  unfold updPV
+  repeat' split
+  all_goals rfl
+
+theorem entryStep_dpl_le (c : Cfg) (hwf : c.WF) (old : Option Entry) (k : Kind) (p : PV) (sn : Nat)
+    (hold : ∀ e, old = some e → e.dpl.length ≤ c.dplLen) :
+    (entryStep c old k p sn).1.dpl.length ≤ c.dplLen := by
+  unfold entryStep
+  cases old with
+  | none =>
+    simp only []
+    split
+    · simp [updPV_dpl]
+    · simp only [updPV_dpl]; exact dplPush_length_le c.dplLen hwf [] sn (by simp)
+  | some e =>
+    have he := hold e rfl
+    simp only []
+    split
+    · simp [updPV_dpl, he]
+    · split
+      · exact he
+      · split <;> simp only [updPV_dpl] <;> exact dplPush_length_le c.dplLen hwf e.dpl sn he
+
+theorem dplBounded_step (c : Cfg) (hv : c.v = {}) (hwf : c.WF) (t : Table) (op : Op) (hu : Uniq t)
+    (h : DplBounded c t) : DplBounded c (step c t op) := by
+  intro b e hl
+  cases op with
+  | tick now => exact h b e hl
+  | refresh now =>
+    simp only [step, lookup_refresh c t now b hu] at hl
+    exact h b e (keep_some hl).1
+  | ensure a =>
+    by_cases hb : b = a
+    · subst hb
+      simp only [step, ensure] at hl
+      split at hl
+      next e0 h0 => rw [lookup_insert_self] at hl; cases hl; exact h b e0 h0
+      next => rw [lookup_insert_self] at hl; cases hl; simp
+    · have : lookup (step c t (.ensure a)) b = lookup t b := by
+        simp only [step, ensure]; split <;> exact lookup_insert_ne _ _ _ _ hb
+      exact h b e (this ▸ hl)
+  | pkt k a p sn now =>
+    by_cases hd : mid a = mid c.self
+    · simp only [step, recv_dad c t k a p sn now hd] at hl; exact h b e hl
+    · by_cases hb : b = a
+      · subst hb
+        simp only [step, lookup_recv_self c hv t k b p sn now hd hu] at hl
+        split at hl
+        · exact h b e (keep_some hl).1
+        · obtain ⟨heq, _⟩ := keep_some hl
+          cases heq
+          apply entryStep_dpl_le c hwf
+          intro e0 he0
+          exact h b e0 (keep_some he0).1
+      · simp only [step, lookup_recv_ne c hv t k a b p sn now hd hb hu] at hl
+        exact h b e (keep_some hl).1
+
 end FlexModel.Geo
